@@ -603,9 +603,47 @@ def real_canary_record():
     )
 
 
+def grouped_canary_record():
+    """A grouped record: the canary record plus a second member; every field of the canary record is reached through the
+    group's attribute lookup (GroupedRecord.__getattr__)."""
+    from flow.record import GroupedRecord, RecordDescriptor
+
+    c = real_classes()
+    if "extra_desc" not in c:
+        c["extra_desc"] = RecordDescriptor("c09/extra", [("string", "zz"), ("varint", "yy")])
+    return GroupedRecord("c09/grouped", [real_canary_record(), c["extra_desc"](zz="extra", yy=7)])
+
+
+def raw_state(v, depth=0):
+    """The object's raw state next to its canonical observation: instance-dict keys of grouped records, identity of member
+    records / list objects / slot values (read with object.__getattribute__), recursively through nested records and lists."""
+    from flow.record.base import GroupedRecord, Record
+
+    if depth > 6:
+        return None
+    if isinstance(v, GroupedRecord):
+        d = object.__getattribute__(v, "__dict__")
+        return ["grouped", id(v), sorted(map(str, d)), [raw_state(m, depth + 1) for m in d.get("records", [])]]
+    if isinstance(v, Record):
+        out = ["record", id(v)]
+        for k in type(v).__slots__:
+            try:
+                x = object.__getattribute__(v, k)
+            except AttributeError:
+                out.append([k, "<unset>"])
+                continue
+            out.append([k, id(x), raw_state(x, depth + 1) if isinstance(x, (Record, list, dict)) else None])
+        return out
+    if isinstance(v, list):
+        return ["list", id(v), len(v), [raw_state(x, depth + 1) if isinstance(x, (Record, list, dict)) else id(x) for x in list.__iter__(v)]]
+    if isinstance(v, dict):
+        return ["dict", id(v), sorted(map(str, v))]
+    return ["value", id(v)]
+
+
 MUTABLE_FIELDS = [("string[]", "tags"), ("stringlist", "sl"), ("dictlist", "hashes"), ("varint[]", "nums"), ("digest", "dg"), ("command", "cmd"),
                   ("record", "sub"), ("record[]", "subs"), ("bytes", "by"), ("string", "s"), ("string", "fmt"), ("string", "fmt2"), ("dynamic", "dy"),
-                  ("path[]", "paths"), ("varint", "n")]
+                  ("path[]", "paths"), ("varint", "n"), ("record", "grp"), ("record[]", "grps")]
 MD5 = "d41d8cd98f00b204e9800998ecf8427e"
 SHA1 = "da39a3ee5e6b4b0d3255bfef95601890afd80709"
 
@@ -626,7 +664,17 @@ def real_mutable_record():
         tags=["a"], sl=["Xa", "yB"], hashes=[{"md5": MD5, "sha1": SHA1}, {"md5": MD5}, {"sha256": "0" * 64}], nums=[1, 2, 3],
         dg=(MD5, None, None), cmd=command.from_posix("ls -l /tmp"), sub=inner(0), subs=[inner(1), inner(2)], by=b"ab", s="Abc Def",
         fmt=FMT_TEXTS["fmt"], fmt2=FMT_TEXTS["fmt2"], dy=["d1", "d2"], paths=["/a/b", "/c"], n=5,
+        grp=_group(c, inner(3), inner(4)), grps=[_group(c, inner(5), inner(6)), inner(7)],
     )
+
+
+def _group(c, a, b):
+    from flow.record import GroupedRecord, RecordDescriptor
+
+    if "other_desc" not in c:
+        c["other_desc"] = RecordDescriptor("c09/other", [("string", "q"), ("varint[]", "nums")])
+    return GroupedRecord("c09/innergroup", [a, c["other_desc"](q="other", nums=[1, 2]), b])
+
 
 
 TYPED_FIELDS = [("string", "s"), ("wstring", "w"), ("uri", "u"), ("varint", "n"), ("filesize", "fs"), ("unix_file_mode", "mode"), ("dynamic", "o"),
